@@ -50,6 +50,7 @@ func main() {
 		Rule: "wire: a scenario is a start file plus 8-14 versions, each 1-3 random edits of the previous one (append new slots, append a new slot twice with different values, rewrite a value, duplicate an old timestamp with another value, reorder, insert a malformed row, remove rows, toggle header) and restarts (with or without an edit while down); " +
 			"targeted probes: two rows of one new slot whose scaled values are congruent mod 2^32, and a first row whose scaled value is a non-zero multiple of 2^32. store: random save/load over (timeslot, value) pairs (before origin, origin-1, origin, inside, hot cells, beyond the end, >= origin+2^30-1, 2^32-1; value 0, equal, different). " +
 			"sync: the same wire oracle for clients whose server is a harness sync server that answers with genuine signed replies (window offset below the history origin, empty or partial bitfield), so that originals and re-sends are both judged; one large scenario re-sends 500 readings while rows keep arriving. " +
+			"fault: while the client runs, its history descriptor is swapped (dup3) for a write-only or a read-only descriptor of the same file, so every history read or every history write fails; during the window stored rows are rewritten and new slots arrive and change; after the window sync rounds re-send what is stored. " +
 			"conc: 2-8 goroutines on one client save/load disjoint slot sets (every load has exactly one legal answer). " +
 			"Non-trivial = a version in which some slot has two usable rows with different values or a row whose value differs from the slot's first reading; a store operation on an occupied cell or outside the range; distinct by content.",
 		Assumptions: []string{
@@ -69,6 +70,7 @@ func main() {
 				"store.save_accepted": 100, "store.save_refused_occupied": 100, "store.save_refused_before_origin": 10, "store.save_noop_equal": 20, "store.zero_on_empty": 10,
 				"store.load": 100, "store.far_saves": 10, "store.wrap_zone_ops": 10, "store.full_checks": 5, "store.restarts": 1, "store.origin_minus_one": 1,
 				"conc.loads_on_stored": 10000, "conc.goroutines": 8, "conc.saves_accepted": 100, "conc.saves_refused_occupied": 1000,
+				"fault.read_fault_windows": 2, "fault.write_fault_windows": 2, "fault.rewritten_stored_rows_under_fault": 4, "fault.new_slots_changed_under_fault": 4, "fault.sync_rounds_after_fault": 6, "fault.datagrams": 40,
 				"sync.rounds_ok": 8, "sync.datagrams": 500, "sync.young_scenarios": 4, "sync.young_resent_slots": 20, "sync.big_scenarios": 1, "sync.slots_sent_more_than_once": 20,
 			} {
 				c.Require(k, min)
@@ -89,7 +91,14 @@ func plan(tier string, seed int64) []run.Batch {
 	if tier == "thorough" {
 		nsy, nyoung, ncc, rounds = 32, 10, 16, 400000
 	}
+	nfb, nfs := 3, 4
+	if tier == "thorough" {
+		nfb, nfs = 24, 10
+	}
 	var bs []run.Batch
+	for i := 0; i < nfb; i++ {
+		bs = append(bs, run.Batch{Kind: "fault", Seed: seed*1000003 + 1100 + int64(i), N: nfs, TimeoutS: 100, Params: map[string]string{"n": fmt.Sprint(nfs)}})
+	}
 	for i := 0; i < nsy; i++ {
 		bs = append(bs, run.Batch{Kind: "sync", Seed: seed*1000003 + 300 + int64(i), N: nyoung + 1, TimeoutS: 110, Params: map[string]string{"n": fmt.Sprint(nyoung)}})
 	}
@@ -120,6 +129,8 @@ func child(b run.Batch, r *ev.Result) {
 		syncChild(b, r)
 	case "conc":
 		concChild(b, r)
+	case "fault":
+		faultChild(b, r)
 	}
 }
 
@@ -172,6 +183,7 @@ type scen struct {
 	header   bool
 	nextSlot int64
 	small    bool // readings stay inside the signed 32-bit range (sync scenarios)
+	faulty   bool // a read or write fault is currently injected into the client's history descriptor
 	versions []string
 	slots    map[uint32]*slotInfo
 	hist     []uint32
@@ -251,7 +263,11 @@ func (s *scen) observe(content string) {
 				continue
 			}
 			info.all[a.Value] = true
-			if e.Must {
+			// While a fault is injected into the history file the client cannot accept
+			// (store) a reading: rows of such a version are possible first readings, not
+			// certain ones. The content is observed again once the fault is lifted.
+			must := e.Must && !s.faulty
+			if must {
 				if perSlot[a.Slot] == nil {
 					perSlot[a.Slot] = map[uint32]bool{}
 				}
@@ -263,7 +279,7 @@ func (s *scen) observe(content string) {
 			if info.fixed {
 				continue
 			}
-			if !e.Must {
+			if !must {
 				info.adm[a.Value] = true
 				continue
 			}
